@@ -6,12 +6,18 @@ evaluations over one shared context gives every job exactly its stand-alone resu
 context unchanged (`C15_schedule`). The premise that evaluation touches nothing but its arguments is
 the purity inventory re-extracted from the source on every run (`impureSites_agree`: no static, no
 interior mutability, no lock, no atomic, no `unsafe`, no `Rc`; `crateAttrs_forbid_unsafe`).
-Send + Sync of the 8 public types is decided by rustc (compile-time assertions in the harness);
-interleavings INSIDE one evaluation rest on rustc's aliasing guarantee for `&` and are only sampled
-(2–16 threads sharing Arc<Node> and Arc<context>).
+Send + Sync of the 8 public types is decided by rustc (compile-time assertions in the harness).
+Interleavings INSIDE evaluations are covered at the level of the model by the small-step machine of
+`Spec/SmallStep.lean` (second half of this file: `C15_one_access`, `C15_smallstep_adequate`,
+`C15_interleaving*`): every step reads the shared context at most once and never writes it, the
+machine computes exactly `Node.evalRO`, and under EVERY schedule of single steps each thread obtains
+its sequential result. That the compiled Rust performs no access to shared memory other than those
+reads rests on the purity inventory and on rustc's aliasing guarantee for `&`; the real interleavings
+are sampled (2–96 threads sharing Arc<Node> and Arc<context>).
 -/
 import EvalexprVerif.Proofs.EvalOrder
 import EvalexprVerif.Proofs.AgreePurity
+import EvalexprVerif.Proofs.Interleave
 
 namespace Evalexpr.Spec.C15
 open Evalexpr Evalexpr.Spec
@@ -44,5 +50,120 @@ theorem C15_permutation (jobs jobs' : List Node) (c : Ctx) (h : jobs'.Perm jobs)
         · exact Or.inr (ih.mpr h)
   rw [hz, hz]
   exact (h.mem_iff).symm
+
+/-! ### C15 at the granularity of single context accesses
+
+`C15_schedule` above interleaves WHOLE evaluations. The statements below interleave INSIDE
+evaluations: every thread is a small-step machine (`Spec/SmallStep.lean`: control stack of frames —
+operator, argument values computed so far, remaining children — plus the thread's OWN call log), a
+step performs at most ONE read of the shared context (`get_value`, the user-function lookup of
+`call_function`, `are_builtin_functions_disabled`; `C15_one_access`) and is otherwise thread-local;
+the machine computes exactly `Node.evalRO` (`C15_smallstep_adequate`); a schedule is an ARBITRARY
+`List Nat` of thread indices (out-of-range indices are no-ops, finished threads stutter), and the
+threads may evaluate different trees — "the same precompiled expression" is `C15_interleaving_same`.
+The shared context is a parameter of `Machine.step` / `Machine.runSched` and not part of any state:
+that it is never changed holds by the types alone.
+What this does NOT carry: that the compiled Rust code performs no other access to shared memory than
+the model's three reads (that is the purity inventory + rustc's `&` guarantee, see the header). -/
+
+section Interleaving
+open Evalexpr.Machine
+
+/-- every step is thread-local, or depends on the shared context through the answer to ONE read that
+the thread's own state determines -/
+theorem C15_one_access (st : MState) :
+    (∃ st', ∀ c, step c st = st') ∨
+      (∃ (q : Access) (k : q.Ans → MState), ∀ c, step c st = k (read c q)) :=
+  Machine.step_one_access st
+
+/-- **adequacy of the machine**: any fuel `f ≥ bound n` (linear in the size of `n`) runs the initial
+state of `(n, log)` to the terminal state carrying exactly the result and the final log of
+`n.evalRO ⟨c, log⟩` -/
+theorem C15_smallstep_adequate (c : Ctx) (n : Node) (log : List (Str × Value)) (f : Nat)
+    (hf : bound n ≤ f) :
+    run c f (init n log) = ⟨.finished (n.evalRO ⟨c, log⟩).1, [], (n.evalRO ⟨c, log⟩).2.log⟩ :=
+  Machine.adequacy c n log f hf
+
+/-- **C15 (interleaving, access granularity).** `ns[i] = n` is the tree of thread `i`; all threads
+share `c`. For EVERY schedule:
+1. the state of thread `i` after the schedule is the state it reaches ALONE after as many steps as
+   the schedule gave it;
+2. whenever thread `i` is finished after the schedule, its result and its log are exactly those of
+   the sequential `n.evalRO ⟨c, []⟩`;
+3. if the schedule gave thread `i` at least `bound n` steps, it is finished (with that result);
+4. once finished it stays finished, in the same state, however the schedule continues. -/
+theorem C15_interleaving (c : Ctx) (ns : List Node) (sched : List Nat) (i : Nat) (n : Node)
+    (hn : ns[i]? = some n) :
+    (runSched c sched (initSys ns))[i]? = some (run c (sched.count i) (init n [])) ∧
+    (∀ st r l, (runSched c sched (initSys ns))[i]? = some st → st.result? = some (r, l) →
+      r = (n.evalRO ⟨c, []⟩).1 ∧ l = (n.evalRO ⟨c, []⟩).2.log) ∧
+    (bound n ≤ sched.count i →
+      (runSched c sched (initSys ns))[i]? =
+        some ⟨.finished (n.evalRO ⟨c, []⟩).1, [], (n.evalRO ⟨c, []⟩).2.log⟩) ∧
+    (∀ st r l sched', (runSched c sched (initSys ns))[i]? = some st → st.result? = some (r, l) →
+      (runSched c (sched ++ sched') (initSys ns))[i]? = some st) :=
+  ⟨by rw [Machine.interleave_init, hn]; rfl,
+   fun st r l hst hr => Machine.interleave_result c sched ns i n st r l hn hst hr,
+   fun hf => Machine.interleave_finishes c sched ns i n hn hf,
+   fun st r l sched' hst hr => Machine.interleave_stable c sched sched' _ i st r l hst hr⟩
+
+/-- part 1 for an arbitrary system state (not only initial ones) -/
+theorem C15_interleaving_state (c : Ctx) (sched : List Nat) (sys : List MState) (i : Nat) :
+    (runSched c sched sys)[i]? = sys[i]?.map (run c (sched.count i)) :=
+  Machine.interleave_state c sched sys i
+
+/-- all threads at once: under every schedule that lets each thread move at least `bound` times,
+every thread ends finished and the (result, log) pairs are those of the sequential evaluations -/
+theorem C15_interleaving_all (c : Ctx) (sched : List Nat) (ns : List Node)
+    (hfair : FairFor ns sched) :
+    (runSched c sched (initSys ns)).map MState.result? =
+      ns.map (fun n => some ((n.evalRO ⟨c, []⟩).1, (n.evalRO ⟨c, []⟩).2.log)) :=
+  Machine.interleave_all c sched ns hfair
+
+/-- the property as worded: `k` threads, the SAME expression, the same shared context -/
+theorem C15_interleaving_same (c : Ctx) (n : Node) (k : Nat) (sched : List Nat)
+    (hfair : ∀ i, i < k → bound n ≤ sched.count i) :
+    (runSched c sched (initSys (List.replicate k n))).map MState.result? =
+      List.replicate k (some ((n.evalRO ⟨c, []⟩).1, (n.evalRO ⟨c, []⟩).2.log)) := by
+  rw [C15_interleaving_all c sched _ ?_, List.map_replicate]
+  intro i m hm
+  rw [List.getElem?_replicate] at hm
+  split at hm
+  · cases hm; exact hfair i ‹_›
+  · cases hm
+
+/-- such schedules exist: round robin (`0, 1, …, k-1` repeated) with enough rounds -/
+theorem C15_fair_exists (ns : List Node) (rounds : Nat) (h : ∀ n, n ∈ ns → bound n ≤ rounds) :
+    FairFor ns (roundRobin ns.length rounds) := Machine.fairFor_roundRobin ns rounds h
+
+/-- non-vacuity, evaluated: two threads evaluate `x + f(1)` (a variable read and a user-function
+call) over one shared context under the alternating schedule `0,1,0,1,…`. After 10 moves each, both
+are strictly inside their evaluations; thread 0 alone ahead by its whole evaluation changes nothing
+for thread 1; after 21 moves each, both are finished with `42` and their own log `[f(1)]`. -/
+example :
+    let c : Ctx := .hashMap { vars := [(['x'], .int 41)], funs := [(['f'], fun v => .ok v)] }
+    let t : Node := ⟨.add, [⟨.varRead ['x'], []⟩, ⟨.fn ['f'], [⟨.const (.int 1), []⟩]⟩]⟩
+    roundRobin 2 3 = [0, 1, 0, 1, 0, 1] ∧
+    (runSched c (roundRobin 2 10) (initSys [t, t])).map MState.isFinished = [false, false] ∧
+    (runSched c (List.replicate 21 0 ++ roundRobin 2 10) (initSys [t, t])).map MState.isFinished
+      = [true, false] ∧
+    (runSched c (roundRobin 2 21) (initSys [t, t])).map MState.result? =
+      [some (.ok (.int 42), [(['f'], .int 1)]), some (.ok (.int 42), [(['f'], .int 1)])] := by
+  refine ⟨rfl, rfl, rfl, rfl⟩
+
+/-- non-vacuity, by the theorem: the same system under 31 rounds of alternation (`bound t = 31`) -/
+example :
+    let c : Ctx := .hashMap { vars := [(['x'], .int 41)], funs := [(['f'], fun v => .ok v)] }
+    let t : Node := ⟨.add, [⟨.varRead ['x'], []⟩, ⟨.fn ['f'], [⟨.const (.int 1), []⟩]⟩]⟩
+    (runSched c (roundRobin 2 31) (initSys [t, t])).map MState.result? =
+      [t, t].map (fun n => some ((n.evalRO ⟨c, []⟩).1, (n.evalRO ⟨c, []⟩).2.log)) := by
+  intro c t
+  refine C15_interleaving_all c _ [t, t] (C15_fair_exists [t, t] 31 ?_)
+  intro n hn
+  simp only [List.mem_cons, List.not_mem_nil, or_false, or_self] at hn
+  subst hn
+  decide
+
+end Interleaving
 
 end Evalexpr.Spec.C15
